@@ -158,6 +158,11 @@ def __parse_unit_string_to_list(unit_string: str) -> List[Union[str, List]]:
     if not re.fullmatch(r"({})+".format(token_pattern.pattern), unit_string):
         raise ValueError("\"{}\" is not a valid unit".format(unit_string))
 
+    # The tokens found below must account for every character of the input, which is not the
+    # case when brackets are nested or unbalanced, e.g. "(a)b)"
+    if "".join(res.group() for res in token_pattern.finditer(unit_string)) != unit_string:
+        raise ValueError("\"{}\" is not a valid unit".format(unit_string))
+
     # For every token found, process it and append it to the list
     for result in token_pattern.finditer(unit_string):
         token = result.group()
